@@ -18,7 +18,7 @@ META = {
         "every flavour, from a thread payload that drives a private event loop), services (created before / after "
         "start / inside payloads) or executed (from outside threads, thread payloads and payloads of the other "
         "coroutine flavour), each alternating synchronous sections (overlap detector, context probe) and "
-        "checkpoints; 0-4 thread payloads blocking for 0.6 s (waiting, or - 10 % of the scenarios - computing in a pure Python loop), a thread payload with a trio run of its own whose worker thread calls execute(flavour=trio), sometimes a crowd of 40-130 of them while coroutine payloads adopt more, adoption of thread payloads while thread creation fails (injected fault); payloads parked on an awaitable only they reference while another thread runs a garbage collection; foreign threads adopting coroutine payloads while a shielded trio cleanup keeps the runtime in its shutdown phase; the runtime in a thread of its own while the main thread, inside execute(), is hit by SIGINT; a thread payload failing while another still blocks (the loops run on until they are cancelled); line-level delay injection. The identity check "
+        "checkpoints; 0-4 thread payloads blocking for 0.6 s (waiting, or - 10 % of the scenarios - computing in a pure Python loop), a thread payload with a trio run of its own whose worker thread calls execute(flavour=trio), sometimes a crowd of 40-130 of them while coroutine payloads adopt more, adoption of thread payloads while thread creation fails (injected fault); payloads parked on an awaitable only they reference while another thread runs a garbage collection; foreign threads adopting coroutine payloads while a shielded trio cleanup keeps the runtime in its shutdown phase; the runtime in a thread of its own while the main thread, inside execute(), is hit by SIGINT; a FactoryPool service (shipped, trio flavour) whose child factory reports where it runs; a thread payload failing while another still blocks (the loops run on until they are cancelled); line-level delay injection. The identity check "
         "(one thread + one loop / one trio run per flavour over the whole run) is deterministic, the overlap "
         "detector a probabilistic second line. Non-trivial = both flavours had >= 2 payloads; distinct by shape."
     ),
@@ -159,6 +159,13 @@ def gen_case(rnd, spec):
                 gen["payloads"].append(small)
                 ops += [["adopt", small["id"]], ["sleep", 0.06]]
             gen["payloads"].append({"id": new("chatty"), "flavour": fl, "when": "queued", "program": ops + [["beat", 0.02, None]], "cleanup": {"kind": "none"}})
+    # a service that cobald ships (FactoryPool, trio flavour): the child factory it calls is part of that trio payload
+    if rnd.random() < 0.2:
+        gen["services"].append({"id": new("shipped"), "flavour": "trio", "program": [], "shipped": "FactoryPool", "create": rnd.choice(["before", "before", "after"]),
+                                "interval": rnd.choice([0.02, 0.05]), "demand": rnd.choice([2, 5])})
+        if gen["services"][-1]["create"] == "after":
+            script.append(["service", gen["services"][-1]["id"]])
+        gen.setdefault("tags", []).append("shipped_trio_service")
     # a thread payload fails while another one still blocks: the coroutine payloads run on until they are cancelled
     if rnd.random() < 0.15:
         gen["payloads"].append({"id": new("tblocked"), "flavour": "threading", "when": "queued", "program": [["ctx"], ["block"]], "cleanup": {"kind": "none"}})
@@ -187,6 +194,16 @@ def gen_case(rnd, spec):
             gen["payloads"].append({"id": new("readopter"), "flavour": fl, "when": "queued", "cleanup": {"kind": "none"},
                                     "program": [["sleep", 0.08], ["adopt_same", again["id"]], ["beat", 0.02, None]]})
         gen.setdefault("tags", []).append("thread_payload_adopted_again_while_running")
+    # a coroutine payload adopts 16 long-blocking thread payloads in one go: adopt returns at once for each, the loop carries on
+    if rnd.random() < 0.2:
+        fl = rnd.choice(common.COROUTINE)
+        ops = [["sleep", 0.1]]
+        for j in range(16):
+            gen["payloads"].append({"id": new("stormblk"), "flavour": "threading", "program": [["block", 1.3]], "cleanup": {"kind": "none"}})
+            ops.append(["adopt", gen["payloads"][-1]["id"]])
+        gen["payloads"].append({"id": new("stormer"), "flavour": fl, "when": "queued", "program": ops + [["beat", 0.02, None]], "cleanup": {"kind": "none"}})
+        long_blocker = True
+        gen.setdefault("tags", []).append("adoption_of_16_blocking_thread_payloads_in_one_go")
     # a crowd of blocking thread payloads, with coroutine payloads adopting more thread payloads meanwhile
     if rnd.random() < 0.25:
         crowd = rnd.choice([40, 70, 130])
@@ -312,6 +329,8 @@ def judge(case, run, result):
             result.count("steps_%s_%s" % (role, fl))
             if e.get("n") == -1:
                 result.count("synchronous_first_sections_of_plain_callables_checked")
+            if e.get("n") == -2:
+                result.count("callbacks_of_a_shipped_trio_service_checked")
         elif not sp.get("executed"):
             if e["th"] in (homes["asyncio"]["th"], homes["trio"]["th"]):
                 problems.append(("%s thread payload %s ran on the %s loop thread" % (role, e["pid"], "asyncio" if e["th"] == homes["asyncio"]["th"] else "trio"), None))
@@ -366,6 +385,11 @@ def judge(case, run, result):
             return values[-1] - values[0] if len(values) >= 2 else 0.0
 
         for fl in common.COROUTINE:
+            stopped = run.first("cancelled", gen=0, pid="heart_" + fl)
+            if stopped is not None and stopped["seq"] < end[0]["seq"]:
+                # the runtime was already terminating (the heartbeat payload had been cancelled) before this thread stopped blocking
+                result.count("blocking_windows_cut_short_by_runtime_end")
+                continue
             beats = [e for e in run.of("beat", gen=0, pid="heart_" + fl) if s["seq"] < e["seq"] < end[0]["seq"]]
             if len(beats) < 2:
                 problems.append(("while thread payload %s blocked for %.2f s the %s heartbeat advanced only %d time(s)"
@@ -449,7 +473,7 @@ def run_shard(spec):
 def finish(total, tier):
     need = ["synchronous_sections_checked", "blocking_thread_payloads_observed", "heartbeats_during_blocking", "scenarios_with_foreign_loop_submitter",
             "steps_adopted_threading", "sections_that_adopt_checked", "blocking_executes_observed", "scenarios_with_crowd", "scenarios_with_no_threads",
-            "scenarios_with_parked_payloads_and_gc", "scenarios_with_thread_payload_adopted_again_while_running", "scenarios_with_compute_bound_thread_payload", "scenarios_with_interrupt_in_a_thread_waiting_in_execute", "ends_by_thread_failure_beside_a_blocked_thread_checked", "compute_bound_thread_payloads_observed",
+            "scenarios_with_parked_payloads_and_gc", "scenarios_with_thread_payload_adopted_again_while_running", "scenarios_with_compute_bound_thread_payload", "scenarios_with_adoption_of_16_blocking_thread_payloads_in_one_go", "callbacks_of_a_shipped_trio_service_checked", "scenarios_with_interrupt_in_a_thread_waiting_in_execute", "ends_by_thread_failure_beside_a_blocked_thread_checked", "compute_bound_thread_payloads_observed",
             "scenarios_with_execute_from_foreign_trio_worker", "synchronous_first_sections_of_plain_callables_checked", "scenarios_with_shutdown_window", "payload_endings_checked"]
     need += ["steps_%s_%s" % (r, f) for r in ("adopted", "service", "executed") for f in common.COROUTINE]
     for name in need:
